@@ -7,7 +7,8 @@
 From Coq Require Import NArith ZArith List String Bool.
 From SV Require Import KV.KvBase KV.KvLex KV.KvParse KV.KvSym KV.KvRoundtrip.
 From SV Require Import Fmt.VmfText Fmt.VmfTextProofs Fmt.VmfBlocks Fmt.VmfBlocksProofs Fmt.VmfFields Fmt.VmfFieldsProofs.
-From SV Require Import Gen.VmfTemplates_gen Gen.VmfKeys_gen Gen.VmfDispSizes_gen Gen.VmfOrder_gen Gen.VmfProg_gen Gen.VmfFieldsCfg_gen.
+From SV Require Import Fmt.VmfNum Fmt.VmfNumProofs.
+From SV Require Import Gen.VmfTemplates_gen Gen.VmfKeys_gen Gen.VmfDispSizes_gen Gen.VmfOrder_gen Gen.VmfProg_gen Gen.VmfFieldsCfg_gen Gen.VmfNumFmt_gen.
 Import ListNotations.
 
 (** 1. Strings survive.  escape_text is inverted by the tokenizer's quoted-string scanner, for every string
@@ -178,3 +179,33 @@ Proof. exact fixups_roundtrip. Qed.
 Theorem c06_fixup_space_in_name_refuted :
   parse_fixup_line 2 (fixup_line 2 ([97; 32; 98], [118], 1%N)) <> ([97; 32; 98], [118], 1%N).
 Proof. exact fixup_space_in_name_refuted. Qed.
+
+(** 8. Numbers per field (round 3).  Gen/VmfNumFmt_gen.v lists, for every number of every written keyvalue line, the
+    formatter that writes each of its components (read from the interpolation and from format_float / the __str__
+    methods of Vec, Angle, UVAxis, Vec4): str(int), '1'/'0', repr(float), '%.pf', '%.pg'.  A format that [meets] a precision
+    class keeps every number -- x = m/d any rational, hence any finite double -- within that class: exactly, within 5e-7
+    absolutely, or within six significant digits (5e-6 relatively).  The check discharges, for every (block, key, index)
+    of the generated table, [field_meets block key index class num_fields] with the class the property demands of that
+    field (six significant digits for face rotation, output delay, multiblend/alphablend; 5e-7 for coordinates and
+    texture axes; exact for integers, flags and the numbers written by repr). *)
+Theorem c06_format_keeps_class : forall f c, meets f c = true ->
+  forall m d wn wd, (0 < d -> 0 < wd -> writes f m d wn wd -> within c m d wn wd)%Z.
+Proof. exact meets_sound. Qed.
+Theorem c06_number_field_within : forall b k i c l, field_meets b k i c l = true ->
+  (exists f, In f l /\ nf_block f = b /\ nf_key f = k /\ nf_idx f = i) /\
+  forall f, In f l -> nf_block f = b -> nf_key f = k -> nf_idx f = i ->
+  forall x, In x (nf_fmts f) -> forall m d wn wd, (0 < d -> 0 < wd -> writes x m d wn wd -> within c m d wn wd)%Z.
+Proof. exact field_meets_sound. Qed.
+(** The table is tight: six decimals do not give six significant digits (1/30 -> 0.033333: an output delay written with
+    format_float), six significant digits do not give 5e-7 (1234567.5 -> 1.23457e+06: a coordinate written with :g), five
+    decimals / five digits are not enough, six decimals are not exact. *)
+Theorem c06_six_decimals_not_six_digits : exists m d wn wd, (0 < d /\ 0 < wd /\ writes (FmtF 6) m d wn wd /\ ~ within PSig6 m d wn wd)%Z.
+Proof. exact f6_not_sig6. Qed.
+Theorem c06_six_digits_not_six_decimals : exists m d wn wd, (0 < d /\ 0 < wd /\ writes (FmtG 6) m d wn wd /\ ~ within PAbs6 m d wn wd)%Z.
+Proof. exact g6_not_abs6. Qed.
+Theorem c06_five_decimals_refuted : exists m d wn wd, (0 < d /\ 0 < wd /\ writes (FmtF 5) m d wn wd /\ ~ within PAbs6 m d wn wd)%Z.
+Proof. exact f5_not_abs6. Qed.
+Theorem c06_five_digits_refuted : exists m d wn wd, (0 < d /\ 0 < wd /\ writes (FmtG 5) m d wn wd /\ ~ within PSig6 m d wn wd)%Z.
+Proof. exact g5_not_sig6. Qed.
+Theorem c06_six_decimals_not_exact : exists m d wn wd, (0 < d /\ 0 < wd /\ writes (FmtF 6) m d wn wd /\ ~ within PExact m d wn wd)%Z.
+Proof. exact f6_not_exact. Qed.
